@@ -1108,6 +1108,10 @@ pub fn busy_server(rep: &mut Report, r: &mut Rng, ids: &mut Ids, scope: Scope, l
     let loads: &[(usize, usize)] = if level == 0 { &[(3, 3)] } else { &[(0, 70), (70, 0), (1100, 0), (0, 1100), (2500, 70), (5, 5), (16, 16), (1, 1), (31, 0), (0, 31)] };
     let variants: u64 = if level == 0 { 1 } else { 3 };
     for (&(between_blocks, overlap), variant) in loads.iter().flat_map(|l| (0..variants).map(move |v| (l, v))) {
+        // (the long-body variants have ~80 blocks: they run under the lighter loads only)
+        if variant >= 1 && between_blocks > 100 {
+            continue;
+        }
         rep.eval();
         let szx = if variant == 0 { r.below(4) as u8 } else { (variant as u8 - 1) * 2 };
         let opts = gen_reply_opts(r);
